@@ -690,6 +690,23 @@ do_keyfile(char * l)
 	if (rc == 0) { free(id); free(secret); }
 }
 
+static int drbg_at_exit;
+static void
+drbg_exit_read(void)
+{
+	uint8_t b[16];
+	int rc;
+
+	if (!drbg_at_exit) return;
+	drbg_at_exit = 0;
+	rc = crypto_entropy_read(b, 16);
+	vt_begin("drbg_read"); vt_int("n", 16); vt_int("rc", rc);
+	if (rc == 0) vt_hex("out", b, 16);
+	vt_end();
+	vt_flush();
+	_exit(0);		/* (nothing else of the driver's needs to run) */
+}
+
 static void
 do_drbg(char * l)
 {
@@ -719,9 +736,21 @@ do_drbg(char * l)
 			ur_n++;
 			if (*p == ',') p++;
 		}
+		{ int atex = 0; for (i = 0; i < n; i++) if (cuts[i] == -2) atex = 1;
+		  if (atex) { drbg_at_exit = 1; atexit(drbg_exit_read); } }	/* registered before the generator is first used */
 		for (i = 0; i < n; i++) {
 			size_t want = (size_t)cuts[i];
-			uint8_t * b = malloc(want + 1);
+			uint8_t * b;
+			if (cuts[i] == -2) continue;
+			if (cuts[i] == -1) {
+				/* the application tidies up its descriptors (as a daemon does) and opens a file of its own */
+				int fd;
+				for (fd = 3; fd < 256; fd++) if (fd != fileno(vt_out)) close(fd);
+				ur_fd = -1;
+				(void)__real_open("/proc/self/status", O_RDONLY);
+				continue;
+			}
+			b = malloc(want + 1);
 			int rc = crypto_entropy_read(b, want);
 			vt_begin("drbg_read"); vt_int("n", (long long)want); vt_int("rc", rc);
 			if (rc == 0) vt_hex("out", b, want);
@@ -729,6 +758,7 @@ do_drbg(char * l)
 			free(b);
 		}
 		vt_flush();
+		if (drbg_at_exit) exit(0);		/* through the exit handlers: one of them asks for random bytes once more */
 		_exit(0);
 	}
 	waitpid(pid, &st, 0);
